@@ -6,6 +6,7 @@ import (
 
 	"github.com/hashicorp/eventlogger"
 	"github.com/hashicorp/go-kms-wrapping/v2/aead"
+	"google.golang.org/protobuf/types/known/wrapperspb"
 )
 
 // ---- payload shape catalogue (concrete shapes, symbolic contents) -----------------------------------------------
@@ -549,4 +550,97 @@ func H_C09_taggable_faults() {
 		c.checkLeaf(oth, b, "", NoOperation, "C09.taggable-faults.untagged-entry")
 		verifReach("C09.taggable-faults.ok")
 	}
+}
+
+// protobuf wrapper values as fields (pointers to wrapperspb.StringValue / BytesValue): their Value is protected as the field's
+// tag says, in the copy only
+type pWrapVals struct {
+	S *wrapperspb.StringValue `class:"sensitive"`
+	B *wrapperspb.BytesValue  `class:"secret"`
+	P *wrapperspb.StringValue `class:"public"`
+}
+
+func H_C09_wrapper_values() {
+	c := symEnv()
+	a, b, p := nondetString(), nondetString(), nondetString()
+	in := &pWrapVals{S: wrapperspb.String(a), B: wrapperspb.Bytes([]byte(b)), P: wrapperspb.String(p)}
+	e := newEvent(in)
+	out, err := c.ef.Process(context.Background(), e)
+	verifAssert(in.S.Value == a && string(in.B.Value) == b && in.P.Value == p, "C10.wrapper-values.original-untouched")
+	if c.o.allNone() || (c.w == nil && c.o.needsWrapper()) {
+		return
+	}
+	if err != nil {
+		verifAssert(out == nil, "C09.wrapper-values.error-forwards-nothing")
+		return
+	}
+	if out == nil {
+		return
+	}
+	op, ok := out.Payload.(*pWrapVals)
+	verifAssert(ok && op != in && op.S != in.S && op.B != in.B, "C10.wrapper-values.deep-copy")
+	if !ok || op.S == nil || op.B == nil || op.P == nil {
+		return
+	}
+	c.checkLeaf(op.S.Value, a, "sensitive", NoOperation, "C09.wrapper-values.string")
+	c.checkLeaf(string(op.B.Value), b, "secret", NoOperation, "C09.wrapper-values.bytes")
+	c.checkLeaf(op.P.Value, p, "public", NoOperation, "C09.wrapper-values.public")
+	verifReach("C09.wrapper-values.ok")
+}
+
+// untagged map -> (pointer to) struct -> map field (and slice of maps): the inner maps' values are unclassified text like
+// any other and leave the filter redacted
+type pHasMap struct {
+	M  map[string]interface{}
+	LM []map[string]interface{}
+	T  string `class:"secret"`
+}
+
+func H_C09_map_struct_map() {
+	c := symEnv()
+	a, b, t := nondetString(), nondetString(), nondetString()
+	inner := &pHasMap{M: map[string]interface{}{"k": a}, LM: []map[string]interface{}{{"k2": b}}, T: t}
+	var payload interface{}
+	byPtr := nondetBool()
+	if byPtr {
+		payload = map[string]interface{}{"s": inner, "plain": a}
+	} else {
+		payload = map[string]interface{}{"s": *inner, "plain": a}
+	}
+	e := newEvent(payload)
+	out, err := c.ef.Process(context.Background(), e)
+	verifAssert(inner.M["k"].(string) == a && inner.LM[0]["k2"].(string) == b && inner.T == t, "C10.map-struct-map.original-untouched")
+	if c.o.allNone() || (c.w == nil && c.o.needsWrapper()) {
+		return
+	}
+	if err != nil {
+		verifAssert(out == nil, "C09.map-struct-map.error-forwards-nothing")
+		return
+	}
+	if out == nil {
+		return
+	}
+	m, ok := out.Payload.(map[string]interface{})
+	verifAssert(ok, "C10.map-struct-map.type-preserved")
+	if !ok {
+		return
+	}
+	pl, _ := m["plain"].(string)
+	c.checkLeaf(pl, a, "", NoOperation, "C09.map-struct-map.plain-entry")
+	var got *pHasMap
+	if byPtr {
+		got, _ = m["s"].(*pHasMap)
+	} else if v, ok := m["s"].(pHasMap); ok {
+		got = &v
+	}
+	verifAssert(got != nil, "C10.map-struct-map.struct-entry-preserved")
+	if got == nil || got.M == nil || len(got.LM) != 1 {
+		return
+	}
+	c.checkLeaf(got.T, t, "secret", NoOperation, "C09.map-struct-map.tagged-field")
+	k, _ := got.M["k"].(string)
+	c.checkLeaf(k, a, "", NoOperation, "C09.map-struct-map.inner-map-value")
+	k2, _ := got.LM[0]["k2"].(string)
+	c.checkLeaf(k2, b, "", NoOperation, "C09.map-struct-map.inner-slice-of-maps-value")
+	verifReach("C09.map-struct-map.ok")
 }
